@@ -18,7 +18,7 @@ package corebgp
 //@   requires [range] p.startupDelay == 0 || (60000000000 <= p.startupDelay && p.startupDelay <= 300000000000)
 //@   ghostvar elapsed int = 0
 //@   at call Since#0 after set elapsed = result
-//@   modifies p.startupDelay, p.lastProtoError, p.startupDelayTimer, timerOn(p.startupDelayTimer), timerMayHold(p.startupDelayTimer)
+//@   modifies p.startupDelay, p.lastProtoError, p.startupDelayTimer, timerOn(p.startupDelayTimer), timerMayHold(p.startupDelayTimer), timerEpoch(p.startupDelayTimer)
 //@   ensures [next_delay] p.startupDelay == ((old(p.lastProtoError) != nil && elapsed >= 300000000000) || old(p.startupDelay) == 0 ? 60000000000 : min(2 * old(p.startupDelay), 300000000000))
 //@   ensures [range] 60000000000 <= p.startupDelay && p.startupDelay <= 300000000000
 //@   ensures [timer_armed] p.startupDelayTimer != nil && fresh(p.startupDelayTimer) && timerOn(p.startupDelayTimer) && timerDur(p.startupDelayTimer) == p.startupDelay
@@ -76,7 +76,7 @@ package corebgp
 //@   requires [inv] peerInv(p) && (i == 0 || i == 1)
 //@   requires [well_formed_error] hasType(err, *notificationError) ==> firstOf(err, *notificationError) != nil && firstOf(err, *notificationError).notification != nil
 //@   let damping = hasType(err, *notificationError) && firstOf(err, *notificationError).notification.Code != 6
-//@   modifies p.fsms[0], p.fsms[1], p.fsmState[0], p.fsmState[1], p.startupDelay, p.lastProtoError, p.startupDelayTimer, p.inHoldDown, fsmRunning(p.fsms[0]), fsmRunning(p.fsms[1]), chanClosed(p.fsms[0].closeCh), chanClosed(p.fsms[1].closeCh), onceDone(p.fsms[0].closeOnce), onceDone(p.fsms[1].closeOnce), timerOn(p.startupDelayTimer), timerMayHold(p.startupDelayTimer)
+//@   modifies p.fsms[0], p.fsms[1], p.fsmState[0], p.fsmState[1], p.startupDelay, p.lastProtoError, p.startupDelayTimer, p.inHoldDown, fsmRunning(p.fsms[0]), fsmRunning(p.fsms[1]), chanClosed(p.fsms[0].closeCh), chanClosed(p.fsms[1].closeCh), onceDone(p.fsms[0].closeOnce), onceDone(p.fsms[1].closeOnce), timerOn(p.startupDelayTimer), timerMayHold(p.startupDelayTimer), timerEpoch(p.startupDelayTimer)
 //@   ensures [inv] peerInv(p)
 //@   ensures [damped_drops_both] damping ==> p.fsms[0] == nil && p.fsms[1] == nil && p.inHoldDown && (old(p.fsms[0]) != nil ==> !fsmRunning(old(p.fsms[0]))) && (old(p.fsms[1]) != nil ==> !fsmRunning(old(p.fsms[1])))
 //@   ensures [damped_timer] damping ==> timerOn(p.startupDelayTimer) && timerDur(p.startupDelayTimer) == p.startupDelay && 60000000000 <= p.startupDelay && p.startupDelay <= 300000000000 && (old(p.startupDelay) == 0 ==> p.startupDelay == 60000000000) && p.startupDelay <= max(2 * old(p.startupDelay), 60000000000)
@@ -119,7 +119,7 @@ package corebgp
 //@   at call enableFSM#1 assert [inbound_accepted_only_when_free] arg1 == 1 && !p.inHoldDown && p.fsms[1] == nil && p.fsmState[0] != 6
 //@   at call Close#0 assert [refused_in_hold_down] p.inHoldDown
 //@   at call Close#1 assert [refused_when_busy] !p.inHoldDown && (p.fsms[1] != nil || p.fsmState[0] == 6)
-//@   modifies p.fsms[0], p.fsms[1], p.fsmState[0], p.fsmState[1], p.startupDelay, p.lastProtoError, p.startupDelayTimer, p.inHoldDown, fsmRunning, chanClosed, onceDone, timerOn, timerMayHold, connClosed
+//@   modifies p.fsms[0], p.fsms[1], p.fsmState[0], p.fsmState[1], p.startupDelay, p.lastProtoError, p.startupDelayTimer, p.inHoldDown, fsmRunning, chanClosed, onceDone, timerOn, timerMayHold, timerEpoch, connClosed
 //@   ensures [all_fsms_joined] p.fsms[0] == nil && p.fsms[1] == nil
 //@   ensures [timer_stopped] !timerOn(p.startupDelayTimer)
 //@   ensures [done_signalled] chanClosed(p.doneCh)
